@@ -118,6 +118,10 @@ def run(ctx):
         d.update({k: v for k, v in kw.items() if k in ("turn_secret", "turn_ttl_s")})
         # a connect burst of 0 is treated as 1 by the server: the two peers (same IP here) must respect the configured connect rate
         fl = dict(zip(flags[::2], flags[1::2]))
+        if "mr" not in kw:
+            # the real host always asks for a receiver limit (default 4); keep it within what the server allows (0 = no server limit)
+            lim = int(fl.get("--max-receivers-per-sender", "10"))
+            d["max_receivers"] = 4 if lim == 0 or lim >= 4 else lim
         if fl.get("--ws-connects-burst") in ("0", "1") and fl.get("--ws-connects-per-min", "30") != "0":
             d["pace_ms"] = int(60000 / int(fl.get("--ws-connects-per-min", "30"))) + 150
         grid.append(d)
@@ -127,6 +131,9 @@ def run(ctx):
         for v in vals:
             g([f, v], f"{f}={v}")
     g(sum(([f, "0"] for f in FLAGS), []), "all=0")
+    # no server-side receiver limit: any limit the host asks for is fine
+    for mr in (1, 100, 65535):
+        g(["--max-receivers-per-sender", "0"], f"--max-receivers-per-sender=0 host asks {mr}", mr=mr)
     g(sum(([f, vals[0]] for f, vals in FLAGS.items()), []), "all=small", mr=1)
     for _ in range(6 if not thorough else 40):
         fl = []
@@ -134,7 +141,7 @@ def run(ctx):
             r = rng.below(3)
             if r < 2:
                 fl += [f, vals[r]]
-        g(fl, "combo:" + " ".join(fl), mr=rng.choice([0, 1]))
+        g(fl, "combo:" + " ".join(fl), mr=rng.choice([0, 1]) if dict(zip(fl[::2], fl[1::2])).get("--max-receivers-per-sender") != "0" else rng.choice([0, 1, 4, 50]))
     for i, (flag, tls, hp) in enumerate(TURN_SPELLINGS):
         ttl = rng.choice([3600, 60, 7200])
         hpn, rpn = PEERS[(2 * i) % len(PEERS)], PEERS[(2 * i + 1) % len(PEERS)]
